@@ -16,7 +16,7 @@ CHUNK = 1
 def RULE(tier):
     q = tier == "quick"
     return ("full enumeration: intToB64/b64ToInt for every i < 2^%d x l in 1..6 plus 64^k-1, 64^k, 64^k+1 (k<=22), 2^64, 2^128+-1; "
-            "codeB64ToB2/codeB2ToB64 for every Base64 string of length <= %d; nabSextets for every byte string of length <= %d x "
+            "codeB64ToB2/codeB2ToB64 for every Base64 string of length <= %d (quick: plus every length-4 string starting with A, B or _); nabSextets for every byte string of length <= %d x "
             "every admissible l. Every case is a distinct input; outcomes are compared with arithmetic written from the statement."
             % (18 if q else 22, 3 if q else 4, 2 if q else 3))
 
@@ -34,6 +34,10 @@ def jobs(tier):
     maxs = 3 if q else 4
     for first in B64:
         js.append(("code", first, maxs))
+    if q:   # length 4 (3 bytes, where sextet count and byte count differ) for leading zero / one / all-ones sextets
+        for first in "AB_":
+            for second in B64:
+                js.append(("code4", first + second))
     maxb = 2 if q else 3
     for b0 in range(0, 256, 16):
         js.append(("nab", b0, b0 + 16, maxb))
@@ -150,6 +154,10 @@ def run_job(job, tier, seed):
             do(("code", s), sample=(len(s) == 2 and s[1] == "z"))
             if len(s) < maxs:
                 stack.extend(s + c for c in B64)
+    elif kind == "code4":
+        for c3 in B64:
+            for c4 in B64:
+                do(("code", job[1] + c3 + c4), sample=(c3 == "z" and c4 == "9"))
     elif kind == "nab":
         lo, hi, maxb = job[1], job[2], job[3]
         stack = [bytes([x]) for x in range(lo, hi)]
